@@ -7,9 +7,9 @@ import WacModel.Spec.Grammar
     parse <source> err   <error>      -               <flag>
     parse <source> panic <message>    -               <flag>
     lex   <source> <items | SCREEN> <flag>
-  `flag = q`: the harness saw a token whose text does not have the documented shape of its kind
-  (lexer-generator artefact, notes/C12.md); for those cases the diagnostics are not compared,
-  only accept/reject and the tree.
+  `flag`: `-`, or `shape=kw-colon`/`shape=dangling-sep`/… when the harness saw one of the known
+  lexer-generator artefacts in the text (notes/C12.md).  The driver does not use it: every case is
+  judged in full; the tag only lets known_findings.d/parser.json attribute the disagreement.
 
   Verdict order: the specification (`Spec.Grammar.verdict`, written from LANGUAGE.md) is
   evaluated on the implementation's observation first (SPEC), then the model (MODEL).
@@ -21,9 +21,8 @@ def showTokItem (t : LTok) : String :=
   | .ok k => s!"{k.name}:{t.span.offset}:{t.span.len}"
   | .error e => s!"!{lexErrStr e}:{t.span.offset}:{t.span.len}"
 
-def judgeParse (src impl a b flag : List Char) : String :=
+def judgeParse (src impl a b _flag : List Char) : String :=
   let implS := String.ofList impl
-  let quirk := flag == ['q']
   -- 1. specification on the implementation's observation
   let specV := Wac.Spec.Grammar.verdict src
   let specMsg : Option String :=
@@ -52,16 +51,14 @@ def judgeParse (src impl a b flag : List Char) : String :=
         if m == String.ofList a then "ok" else s!"MODEL\ttree: model={m} impl={String.ofList a}"
     | .error e =>
       if implS == "ok" then s!"MODEL\tmodel rejects ({errorStr e}), implementation accepts"
-      else if quirk then "ok"
       else if errorStr e == String.ofList a then "ok"
       else s!"MODEL\terror: model={errorStr e} impl={String.ofList a}"
 
-def judgeLex (src impl flag : List Char) : String :=
+def judgeLex (src impl _flag : List Char) : String :=
   match detectInvalidInput src with
   | some _ => if impl == "SCREEN".toList then "ok" else "MODEL\tlex: model screens the text, implementation does not"
   | none =>
     if impl == "SCREEN".toList then "MODEL\tlex: implementation screens the text, model does not"
-    else if flag == ['q'] then "ok"
     else
       let m := ",".intercalate ((tokenize src).map showTokItem)
       if m == String.ofList impl then "ok" else s!"MODEL\tlex: model={m} impl={String.ofList impl}"
